@@ -58,6 +58,14 @@ IFACE_V1 = interface.DBusInterface('org.ex.Echo', interface.Method('Echo', argum
 class SrvBase(objects.DBusObject):
     dbusInterfaces = [IFACE_V1]
 
+    # org.ex.Echo's members are bound by decorator partly here and partly in the subclass
+    @objects.dbusMethod('org.ex.Echo', 'Words')
+    def echo_words(self, s, extra):           # one array, holding exactly one element
+        self.log.append((s, extra))
+        if self._bad(s, 'Words'):
+            return BAD['Words']
+        return ['w:' + s]
+
 
 class Srv(SrvBase):
     """ONE class for the exported object and for the decoys other clients export at the same path: what a call
@@ -93,13 +101,6 @@ class Srv(SrvBase):
         if self._bad(s, 'Echo'):
             return BAD['Echo']
         return ['r:' + s, (len(extra), 'é' + s)]
-
-    @objects.dbusMethod('org.ex.Echo', 'Words')
-    def echo_words(self, s, extra):           # one array, holding exactly one element
-        self.log.append((s, extra))
-        if self._bad(s, 'Words'):
-            return BAD['Words']
-        return ['w:' + s]
 
     def dbus_Table(self, s, extra):           # one value that is not a struct but holds structs
         self.log.append((s, extra))
